@@ -1,10 +1,222 @@
+//! Component drivers. Each component generates op scripts (one op per line),
+//! executes them against the real a10 code and prints canonical output; the
+//! same script is fed to the Lean model driver and the outputs are diffed.
+
+use std::collections::{BTreeMap, HashSet};
+use std::fmt::Write as _;
+
+use crate::util::{self, Out, Rng};
 use crate::Args;
 
+pub mod addr;
 pub mod smoke;
+
+/// What a case reports when it ends.
+#[derive(Default)]
+pub struct CaseReport {
+    /// (property, signature, what)
+    pub oracle: Vec<(String, String, String)>,
+    /// Features of interest hit by this case (for the input distribution).
+    pub features: Vec<String>,
+    /// Non-trivial by the component's rule.
+    pub nontrivial: bool,
+}
+
+pub trait Case {
+    /// Produce the next op of a generated case (None = end of the case).
+    fn next_op(&mut self, rng: &mut Rng) -> Option<String>;
+    /// Execute one op line against the implementation; returns output lines.
+    fn exec(&mut self, op: &str) -> Vec<String>;
+    /// Oracle failures detected by the op just executed: (property, signature, what).
+    fn drain_oracle(&mut self) -> Vec<(String, String, String)> {
+        Vec::new()
+    }
+    /// End of the case.
+    fn finish(&mut self) -> CaseReport;
+}
+
+pub trait Comp {
+    fn name(&self) -> &'static str;
+    /// How cases are generated and what makes one non-trivial / distinct.
+    fn rule(&self) -> String;
+    /// Generate the header line (`<comp> begin <id> k=v …`) of case `id`.
+    fn gen_header(&mut self, rng: &mut Rng, id: u64, tier: &str) -> String;
+    /// Start a case from its header line.
+    fn begin(&mut self, header: &str) -> Box<dyn Case>;
+}
+
+fn hash_lines(lines: &[String]) -> u64 {
+    // FNV-1a
+    let mut h: u64 = 0xcbf29ce484222325;
+    for l in lines.iter().skip(1) {
+        for b in l.bytes() {
+            h ^= b as u64;
+            h = h.wrapping_mul(0x100000001b3);
+        }
+        h ^= 0xff;
+        h = h.wrapping_mul(0x100000001b3);
+    }
+    h
+}
+
+pub fn run_comp(a: &Args, comp: &mut dyn Comp) -> i32 {
+    let mut out = Out::default();
+    let mut dist: BTreeMap<String, u64> = BTreeMap::new();
+    let mut features: BTreeMap<String, u64> = BTreeMap::new();
+    let mut distinct: HashSet<u64> = HashSet::new();
+    let mut samples: Vec<Vec<String>> = Vec::new();
+    let mut oracle: Vec<(String, String, String, String, Vec<String>)> = Vec::new();
+    let mut cases = 0u64;
+    let mut evals = 0u64;
+
+    let mut scripts: Vec<Vec<String>> = Vec::new();
+    if let Some(path) = &a.replay {
+        let text = std::fs::read_to_string(path).expect("read replay file");
+        for line in text.lines() {
+            let line = line.trim();
+            if line.is_empty() || line.starts_with('#') {
+                continue;
+            }
+            let toks: Vec<&str> = line.split(' ').collect();
+            if toks.len() >= 2 && toks[1] == "begin" {
+                scripts.push(vec![line.to_string()]);
+            } else if let Some(last) = scripts.last_mut() {
+                last.push(line.to_string());
+            }
+        }
+    }
+
+    let mut rng = Rng::new(a.seed ^ 0xa10a10a10);
+    let n = if a.replay.is_some() { scripts.len() as u64 } else { a.cases };
+    for i in 0..n {
+        let mut crng = rng.fork();
+        let mut script: Vec<String> = Vec::new();
+        let replaying = a.replay.is_some();
+        let header = if replaying {
+            scripts[i as usize][0].clone()
+        } else {
+            comp.gen_header(&mut crng, i, &a.tier)
+        };
+        out.op(&header);
+        script.push(header.clone());
+        let mut case = comp.begin(&header);
+        let mut k = 1usize;
+        loop {
+            let op = if replaying {
+                if k < scripts[i as usize].len() {
+                    k += 1;
+                    Some(scripts[i as usize][k - 1].clone())
+                } else {
+                    None
+                }
+            } else {
+                case.next_op(&mut crng)
+            };
+            let Some(op) = op else { break };
+            out.op(&op);
+            let kind = op.split(' ').nth(1).unwrap_or("?").to_string();
+            *dist.entry(kind).or_insert(0) += 1;
+            script.push(op.clone());
+            evals += 1;
+            for l in case.exec(&op) {
+                out.line(&l);
+            }
+            for (p, sig, what) in case.drain_oracle() {
+                let id = header.split(' ').nth(2).unwrap_or("?").to_string();
+                if oracle.len() < 50 && !oracle.iter().any(|o| o.2 == sig) {
+                    oracle.push((id, p, sig, what, script.clone()));
+                }
+            }
+        }
+        let rep = case.finish();
+        drop(case);
+        cases += 1;
+        for f in &rep.features {
+            *features.entry(f.clone()).or_insert(0) += 1;
+        }
+        if rep.nontrivial {
+            let h = hash_lines(&script);
+            if distinct.insert(h) && samples.len() < 3 {
+                samples.push(script.clone());
+            }
+        }
+        for (p, sig, what) in rep.oracle {
+            let id = header.split(' ').nth(2).unwrap_or("?").to_string();
+            if oracle.len() < 50 && !oracle.iter().any(|o| o.2 == sig) {
+                oracle.push((id, p, sig, what, script.clone()));
+            }
+        }
+    }
+
+    let name = comp.name();
+    std::fs::write(format!("{}/{}.ops", a.out, name), &out.ops).unwrap();
+    std::fs::write(format!("{}/{}.impl", a.out, name), &out.out).unwrap();
+
+    let mut j = String::new();
+    let _ = write!(
+        j,
+        "{{\"component\":{},\"cases\":{},\"evaluations\":{},\"distinct_nontrivial\":{},\"rule\":{},",
+        util::jstr(name),
+        cases,
+        evals.max(cases),
+        distinct.len(),
+        util::jstr(&comp.rule())
+    );
+    j.push_str("\"distribution\":{\"ops\":{");
+    j.push_str(
+        &dist
+            .iter()
+            .map(|(k, v)| format!("{}:{}", util::jstr(k), v))
+            .collect::<Vec<_>>()
+            .join(","),
+    );
+    j.push_str("},\"features\":{");
+    j.push_str(
+        &features
+            .iter()
+            .map(|(k, v)| format!("{}:{}", util::jstr(k), v))
+            .collect::<Vec<_>>()
+            .join(","),
+    );
+    j.push_str("}},\"samples\":[");
+    j.push_str(
+        &samples
+            .iter()
+            .map(|s| {
+                format!(
+                    "[{}]",
+                    s.iter().map(|l| util::jstr(l)).collect::<Vec<_>>().join(",")
+                )
+            })
+            .collect::<Vec<_>>()
+            .join(","),
+    );
+    j.push_str("],\"oracle_failures\":[");
+    j.push_str(
+        &oracle
+            .iter()
+            .map(|(id, p, sig, what, script)| {
+                format!(
+                    "{{\"case\":{},\"property\":{},\"signature\":{},\"what\":{},\"ops\":[{}]}}",
+                    util::jstr(id),
+                    util::jstr(p),
+                    util::jstr(sig),
+                    util::jstr(what),
+                    script.iter().map(|l| util::jstr(l)).collect::<Vec<_>>().join(",")
+                )
+            })
+            .collect::<Vec<_>>()
+            .join(","),
+    );
+    j.push_str("]}\n");
+    std::fs::write(format!("{}/{}.stats.json", a.out, name), j).unwrap();
+    0
+}
 
 pub fn run(a: &Args) -> i32 {
     match a.comp.as_str() {
         "smoke" => smoke::run(a),
+        "addr" => run_comp(a, &mut addr::AddrComp),
         other => {
             eprintln!("unknown component {other}");
             2
